@@ -2,7 +2,7 @@
    witnesses for the sharing that the current code still has. *)
 From Coq Require Import ZArith List Bool Lia.
 Import ListNotations.
-Require Import PyBase Heap HeapFacts HeapFrame HeapCopy HeapHistory HeapSim.
+Require Import PyBase Heap HeapFacts HeapFrame HeapCopy HeapHistory HeapSim HeapOps.
 Open Scope Z_scope.
 
 Fixpoint nodupb (l : list Z) : bool := match l with [] => true | x :: r => negb (zmem x r) && nodupb r end.
@@ -199,3 +199,23 @@ Example ex_linker_copy_disjoint :
   filter (fun x => Nat.eqb (snd (fst x)) 5) (sharing s1) = [] /\
   nth 5 (root_views s1 7) CCut = nth 4 (root_views s1 7) CCut.
 Proof. vm_compute. repeat split; reflexivity. Qed.
+
+(* ---- operation-level histories: the hypotheses of hhistory_independent / copy_independent_ops are satisfiable by a history
+   with instantiation, the copy, list mutation, add_variable, a two-pass solve and a traced solve (TRACE_VARIABLES = None) *)
+Definition ops_history : list hevent :=
+  [HOps 1 [OListAppend N_check 777; OAddVariable 207 109 [1; 2; 3]; OSetAttr N_lags 4];
+   HOps 2 (solve_ops 1 [(201, 7)] 2 123 4 (Some (TMNames, 501, 503, 505)));
+   HEv (EInit 0 (args list_span));
+   HOps 0 [OListAppend C_NAMES 209]].
+
+Example ex_ops_history_ok : forallb hevent_ok ops_history = true.
+Proof. vm_compute. reflexivity. Qed.
+
+Example ex_copy_then_ops_share_nothing :
+  let s := run_events K0 (s0 1 None) [EInit 0 (args range_span)] in
+  roots_ok s /\ sharing (run_hevents K0 (run_event K0 s (ECopy 1)) ops_history) = [].
+Proof. split; [apply roots_okb_sound; vm_compute; reflexivity | vm_compute; reflexivity]. Qed.
+
+(* the excluded operation is exactly the kept finding *)
+Example ex_leak_op_not_ok : forallb op_ok leak_ops = false.
+Proof. reflexivity. Qed.
